@@ -558,9 +558,27 @@ pub fn check_main(engine: &dyn Engine, o: &CheckOptions) -> i32 {
         Tier::Thorough => 6 * 3600,
     });
     let mut respawns = 0usize;
+    let mut first_violation_at: Option<Instant> = None;
     loop {
         if children.iter().all(|c| c.done) {
             break;
+        }
+        // Once a violation is on record the verdict is settled; the remaining shards get ten more minutes
+        // (more signatures for the report), then the run ends.  On a tree that holds the property this
+        // never triggers.  (A fault can make single cases burn their whole CPU budget, again and again.)
+        if !agg.violations.is_empty() && first_violation_at.is_none() {
+            first_violation_at = Some(Instant::now());
+        }
+        if let Some(t) = first_violation_at {
+            if t.elapsed() > Duration::from_secs(600) {
+                for c in children.iter_mut().filter(|c| !c.done) {
+                    let _ = c.proc.kill();
+                    let _ = c.proc.wait();
+                    c.done = true;
+                }
+                *agg.counters.entry("stopped-early:ten-minutes-after-the-first-violation".to_string()).or_insert(0) += 1;
+                break;
+            }
         }
         match rx.recv_timeout(Duration::from_millis(500)) {
             Ok(Msg::Line(shard, line)) => {
